@@ -54,6 +54,13 @@ def replay_one(item) -> dict:
         msgs += m2 + run.check_untouched()
         if msgs:
             fails.append({"kind": "constant", "what": "; ".join(msgs[:3]), "meta": run.meta})
+    if idx % 2 == 0:
+        from ..mtl_replay import precision_run_mtl
+        stats["runs"] += 1
+        msgs = precision_run_mtl(scn, rng)
+        if msgs:
+            fails.append({"kind": "precision", "what": "float64 precision run (values not representable in float32): "
+                          + "; ".join(msgs[:3]), "meta": {"dtype": "float64", "perturb": "2^-29"}})
     if with_others and scn["shared"]:
         aggs = other_aggregators(len(scn["losses"]), torch.float64)
         agg = aggs[idx % len(aggs)]
